@@ -111,6 +111,7 @@ class World:
         self.loop = 0
         self.tick_cap = tick_cap
         self.stack = {}
+        self.sp = 0
         self.rand_n = 0
 
     def effect(self, *e):
@@ -416,6 +417,34 @@ def make_globals(w):
         g[n] = _mk1(n)
     for n in ("add", "sub", "mul", "div", "mod", "pow", "max", "min", "atan2", "xor", "nor", "sll", "srl", "sla", "sra"):
         g[n] = _mk2(n)
+    # own-stack and device intrinsics (statement / value forms of the IC10 instructions)
+    own = StackObj(w, "db")
+
+    def _push(v):
+        own[w.sp] = v
+        w.sp += 1
+
+    def _pop():
+        w.sp -= 1
+        return own[w.sp]
+
+    def _lt(x):
+        return float(int(x)) if not isinstance(x, str) else float(int(enums()["LogicType"][x]))
+
+    def _l(d, lt):
+        return w.read("l", devof(d), _lt(lt))
+
+    def _s(d, lt, v):
+        w.effect("s", devof(d), _lt(lt), N(v))
+
+    def _get(d, a):
+        return StackObj(w, devof(d))[a]
+
+    def _put(d, a, v):
+        StackObj(w, devof(d))[a] = v
+
+    g.update({"push": _push, "pop": _pop, "peek": lambda: own[w.sp - 1], "poke": lambda a, v: own.__setitem__(a, v), "l": _l, "get": _get, "put": _put})
+    g["s_"] = _s
     g["and_"] = _mk2("and")
     g["or_"] = _mk2("or")
     g["not_"] = _mk1("not")
